@@ -668,6 +668,18 @@ Proof.
     + intros x y Hx Hy. apply Hd; [exact Hx|]. apply (In_zipapp dl dr y Hlen Hy).
 Qed.
 
+(** hash shipping: co-partitioned distributions of both sides, joined locally (used by
+    [de_join_hash], [de_split_join] and the side-input join [ds_join_side]) *)
+Lemma hash_join_sound v dl dr ls rs :
+  Permutation (flat dl) ls -> Permutation (flat dr) rs -> length dl = length dr ->
+  key_partitioned (map (fun lr => fst lr ++ snd lr) (combine dl dr)) ->
+  Permutation (flat (map (fun lr => local_join v (fst lr) (snd lr)) (combine dl dr)))
+              (ev_join v ls rs).
+Proof.
+  intros Hl Hr Hlen Hkp. unfold local_join.
+  rewrite join_partitioned by assumption. apply ev_join_perm; assumption.
+Qed.
+
 (** * L2: stateless operators act partition-wise *)
 
 Lemma local_flat st o d :
@@ -814,6 +826,7 @@ Proof.
   intros o. change (perm_resp o). induction o using op1_ind'.
   - intros st xs ys Hp.
     destruct o; try discriminate; cbn [ev1];
+      try (apply ev_join_perm; [exact Hp | reflexivity]);   (* OJoinSide: left argument *)
       try (apply Permutation_map; exact Hp);
       try (apply filter_perm; exact Hp);
       try (apply Permutation_flat_map; exact Hp);
@@ -903,6 +916,8 @@ Proof.
   - (* ds_nestedO *) intros st n limit body d d0 res Hex _ IH.
     rewrite ev1_nestedO, flat_single.
     rewrite (IH (flat d)); [reflexivity | symmetry; exact Hex].
+  - (* ds_join_side *) intros st v lo side d dl' dr' Hex Hside Hlen Hkp. cbn [ev1].
+    apply hash_join_sound; [symmetry; exact Hex | exact Hside | exact Hlen | exact Hkp].
   - (* dss_nil *) intros st d. reflexivity.
   - (* dss_cons *) intros st o os d d1 d2 _ IH1 _ IH2.
     rewrite ev_ops_cons. rewrite IH2. apply ev_ops_perm. exact IH1.
@@ -968,16 +983,6 @@ Proof.
 Qed.
 
 (** * L6: the main theorem *)
-
-Lemma hash_join_sound v dl dr ls rs :
-  Permutation (flat dl) ls -> Permutation (flat dr) rs -> length dl = length dr ->
-  key_partitioned (map (fun lr => fst lr ++ snd lr) (combine dl dr)) ->
-  Permutation (flat (map (fun lr => local_join v (fst lr) (snd lr)) (combine dl dr)))
-              (ev_join v ls rs).
-Proof.
-  intros Hl Hr Hlen Hkp. unfold local_join.
-  rewrite join_partitioned by assumption. apply ev_join_perm; assumption.
-Qed.
 
 Theorem dexec_sound : forall p d, dexec p d -> Permutation (flat d) (denote p).
 Proof.
@@ -1082,6 +1087,58 @@ Proof.
     change 26 with (13 + zsum (map snd (flat [[(1,7)];[(0,6)]]))).
     eapply dlo_last; [exact Hs | reflexivity].
 Qed.
+
+(** * [OJoinSide]: join with a constant side input, also inside loop bodies *)
+
+(** outer join of the stream [(1,5);(3,7)] with the side input [(1,10);(2,20)]: key 1 matches
+    (jmix (Some 5) (Some 10) = 6*1009+11), key 3 is left-only (8*1009), key 2 right-only (21) *)
+Example join_side_outer :
+  ev1 0 (OJoinSide JvOuter LoSortMerge [(1,10);(2,20)]) [(1,5);(3,7)] = [(1, 6065); (3, 8072); (2, 21)].
+Proof. vm_compute. reflexivity. Qed.
+(** the state does not matter, nor does the local algorithm *)
+Example join_side_state_lo :
+  ev1 42 (OJoinSide JvOuter LoHash [(1,10);(2,20)]) [(1,5);(3,7)] = [(1, 6065); (3, 8072); (2, 21)].
+Proof. vm_compute. reflexivity. Qed.
+Lemma ev1_join_side st v lo side xs : ev1 st (OJoinSide v lo side) xs = ev_join v xs side.
+Proof. reflexivity. Qed.
+(** inside a replay loop body, after a state-reading op: the side input is the same in both
+    rounds, the left side moves with the state. Round 1 (state 0): (1,5) joins (1,10):
+    6*1009+11 = 6065; round 2 (state 6065): (1,6070) joins (1,10): 6071*1009+11 = 6125650 mod
+    1000003 = 125632; state 6065 + 125632 = 131697 *)
+Example join_side_in_replay :
+  denote (PReplay (PSrc true [(1,5);(3,7)]) 2 1000000 [OAddState; OJoinSide JvInner LoHash [(1,10)]])
+  = [(0, 131697)].
+Proof. vm_compute. reflexivity. Qed.
+
+(** non-vacuity of [ds_join_side]: a two-partition run of the first example (left side
+    exchanged so that key 1 goes to replica 0 and key 3 to replica 1; the side input
+    distributed with key 1 on replica 0 and key 2 on replica 1) *)
+Example dstep_join_side_example :
+  dstep 0 (OJoinSide JvOuter LoSortMerge [(1,10);(2,20)]) [[(3,7)];[(1,5)]]
+        [[(1, 6065)]; [(3, 8072); (2, 21)]].
+Proof.
+  change [[(1, 6065)]; [(3, 8072); (2, 21)]]
+    with (map (fun lr => local_join JvOuter (fst lr) (snd lr))
+              (combine [[(1,5)];[(3,7)]] [[(1,10)];[(2,20)]])).
+  apply ds_join_side.
+  - unfold exchange, flat. cbn [concat app]. apply perm_swap.
+  - unfold flat. cbn [concat app]. reflexivity.
+  - reflexivity.
+  - cbn [combine map fst snd app].
+    intros i j x y Hx Hy E.
+    destruct i as [|[|i]]; destruct j as [|[|j]]; cbn [nth] in Hx, Hy;
+      try reflexivity; try (destruct i; contradiction); try (destruct j; contradiction);
+      cbn [In] in Hx, Hy;
+      repeat match goal with
+             | H : _ \/ _ |- _ => destruct H
+             | H : False |- _ => contradiction
+             end; subst; cbn [fst] in E; discriminate.
+Qed.
+(** and its soundness instance *)
+Example dstep_join_side_example_sound :
+  Permutation (flat [[(1, 6065)]; [(3, 8072); (2, 21)]])
+              (ev1 0 (OJoinSide JvOuter LoSortMerge [(1,10);(2,20)]) (flat [[(3,7)];[(1,5)]])).
+Proof. apply dstep_sound, dstep_join_side_example. Qed.
 
 Print Assumptions ev1_perm.
 Print Assumptions dstep_sound.
